@@ -282,8 +282,8 @@ class ConstraintCopyBuilder(ModelVisitor):
         if self.do_copy_level > 0:
             self._expr = ExprPartselectModel(
                 self.expr(e.lhs),
-                e.upper,
-                e.lower)
+                self.expr(e.upper),
+                None if e.lower is None else self.expr(e.lower))
         else:
             super().visit_expr_partselect(e)
             
